@@ -1083,7 +1083,7 @@ def _tstate_eq(a, b):
 def _member_leak(c, added):
     """labels just appended elsewhere must not be found in an index that does not list them (shared hash map)"""
     import static_frame as sf
-    idxs = [c] if isinstance(c, sf.Index) else ([c.index, c.columns] if isinstance(c, sf.Frame) else ([c.index] if isinstance(c, sf.Series) else []))
+    idxs = [c] if isinstance(c, (sf.Index, sf.IndexHierarchy)) else ([c.index, c.columns] if isinstance(c, sf.Frame) else ([c.index] if isinstance(c, sf.Series) else []))
     for ix in idxs:
         for lb in added:
             try:
